@@ -101,6 +101,20 @@ R_SCOPES["r_samegraph"] = {
     "presets": AL.SCOPES["samegraph"]["presets"],
     "gnames": AL.SCOPES["samegraph"]["gnames"],
 }
+R_SCOPES["r_langtags"] = {
+    # language tags that are not in BCP 47 recommended case, on literals that stay distinct
+    # under rdflib's case-insensitive comparison: the tag must come back exactly as written
+    "triples": [
+        (AX, AP, L("a", "EN")),
+        (AX, AP, L("b", "en-us")),
+        (AX, AP, L("c", "zh-hant")),
+        (AX, AP, L("d", "en-x-Foo")),
+        (AX, AP, L("e", "de-CH-1996")),
+        (AY, AP, L("a", "En-gB")),
+    ],
+    "presets": [(8, 1, 0)] * 4,
+    "restricted": True,
+}
 R_SCOPES["r_bnodes"] = {
     # blank-node labels with leading '_' / ':' / "_:" (legal strings for both integrations),
     # next to labels that differ from them only by those characters
